@@ -1,6 +1,6 @@
 """C17 — the debugger's view of source and symbols matches the assembler's."""
 import re
-from ..facts import callee_of, short, sp_file_line, expr_str, expr_walk, place_is_local
+from ..facts import callee_of, short, sp_file_line, expr_str, expr_walk, place_is_local, const_int
 from .. import tables
 from .. import kit, dbg, formula
 from ..effects import Effects
@@ -16,6 +16,7 @@ EXPLANATION = (
     "R5 (EFF): the debugger's source view is built from the very AIR the image was emitted from and is never written."
     ' R4 is decided on emission summaries with call identity (directive token vs operand token). R7: a prefix label taken by the parser is entered into the symbol table on every way to the next statement. R8: the functions of the source view that print a slice of the stored source do so under an output category whose writer arm does not scan the text (the markup categories are read from DebuggerWriter::write_str). R9 (TAB): every lexer scan that can end in an identifier has a predicate that is false on each separator character of the lexer (is_whitespace evaluated over ASCII), so a label name never contains its colon.'
     " R1 also: the offset helper is evaluated on a grid of origins, addresses and offsets around both bounds and must answer Some(address + offset) exactly for sums in [origin, 0xFE00); the statement lookup is bounded by the statement count itself."
+    " R10: the Display implementation of output::Decolored (the --minimal filter) singles out only ESC and m and calls no character-class predicate."
 )
 NOT_DECIDED = "equality of the shown text with the intended statement text for every layout (comments glued to operands etc.)"
 
@@ -581,6 +582,38 @@ def run(ctx):
                               "as `name:` and the debugger cannot resolve `name`)"
                               % (short(n), ("keeps reading across {%s}" % tables.show_chars(crossed)) if crossed is not None else "has a predicate that could not be evaluated (%s)" % why_))
     ctx.need(nscan >= 3, "scans that can end in an identifier (hex, dec, ident): found %d" % nscan)
+    ctx.finish_rule()
+
+    # ------------------------------------------------------------------ R10
+    # in --minimal mode every piece of text - program output, the statement text `assembly` shows - passes the filter that removes colour
+    # sequences. It removes those and nothing else: the only characters it singles out are ESC (start of a sequence) and `m` (its end), it
+    # asks no character class, and every other character is written. (A filter that also drops "stray control characters" deletes the
+    # TABs inside a statement and the control characters a program prints.)
+    ctx.rule("C17.R10", "the minimal-mode filter removes colour sequences and nothing else", floor=1)
+    dfs = [f for n, f in sorted(prog.fns.items()) if f.bkind == "fn" and re.search(r"<output::Decolored<'_> as core::fmt::Display>::fmt($|::\{closure)", n)]
+    ctx.need(dfs, "the Display implementation of output::Decolored")
+    singled, classes = set(), set()
+    for f in dfs:
+        ctx.analysed_fns.add(f.name)
+        classes |= {short(c).rsplit("::", 1)[-1] for b, t, c in f.calls() if c and re.search(r"char::methods::<impl char>::is_\w+$", c)}
+        for b, i_, s_ in f.assigns():
+            r = s_["r"]
+            if r["k"] == "bin" and r["op"] in ("Eq", "Ne", "Lt", "Le", "Gt", "Ge") and r.get("ty") == "char":
+                singled |= {const_int(o) for o in (r["a"], r["b"]) if const_int(o) is not None}
+            if r["k"] == "agg" and r.get("ak") == "array" and r["ops"] and all(o.get("k") == "const" and str(o.get("ty")) == "char" for o in r["ops"]):
+                singled |= {const_int(o) for o in r["ops"]}
+        for b in f.live_blocks():
+            t = f.term(b)
+            if t["k"] == "switch" and t.get("ty") == "char":
+                singled |= {v for v, x in t["targets"]}
+    ctx.instance(1)
+    ok = 0x1B in singled and singled <= {0x1B, ord("m")} and not classes
+    ctx.oblig(ok, {"characters singled out": sorted(singled), "character classes asked": sorted(classes)}, "ESC and m only, no class")
+    if not ok:
+        ctx.violation("minimal-filter-drops-text", dfs[0].file_line(),
+                      "the --minimal filter singles out the characters %s and asks the classes %s (expected ESC and `m` only): text other than colour sequences is "
+                      "changed on its way out - the statement `assembly` shows loses characters the source has, and so does what the program prints"
+                      % ([hex(x) for x in sorted(singled)], sorted(classes)))
     ctx.finish_rule()
 
 
